@@ -87,7 +87,23 @@ def norm(x):
 def _ev(m, e):
     return m.eval(e, model_completion=True) if m is not None else z3.simplify(e)
 
+def _has_uf(e):
+    """does the term depend on the result of an uninterpreted NumPy reducer?"""
+    seen = set(); stack = [e]
+    while stack:
+        t = stack.pop()
+        if t.get_id() in seen: continue
+        seen.add(t.get_id())
+        if z3.is_const(t) and t.decl().kind() == z3.Z3_OP_UNINTERPRETED and t.decl().name().startswith("uf_"):
+            return True
+        stack.extend(t.children())
+    return False
+
+UF_WILDCARD = "*uf*"
+
 def _f_hex(m, e):
+    if m is not None and not z3.is_fp_value(e) and _has_uf(e):
+        return UF_WILDCARD
     v = _ev(m, e)
     if z3.is_fp(v) and not z3.is_fprm(v):
         bv = z3.simplify(z3.fpToIEEEBV(v))
